@@ -738,6 +738,95 @@ bool pd_ext_c(int nt, char **tok)
         ret(0);
         return true;
     }
+    /* ---- segmented block buffers owned by the application: the calls that hand a ubuf over to the
+     * chain of another one (append / insert), free segments (truncate / delete / resize) or give
+     * segments back (split) ---- */
+    if (!strcmp(c, "balloc") && nt >= 3) {
+        struct abuf *b = abuf_find(tok[1], true);
+        if (b == NULL || b->b != NULL) { ret(-1); return true; }
+        int size = atoi(tok[2]);
+        b->b = ubuf_block_alloc(g_block, size);
+        if (b->b == NULL) { ret(-1); return true; }
+        int sz = -1; uint8_t *w;
+        if (size > 0 && ubase_check(ubuf_block_write(b->b, 0, &sz, &w))) {
+            for (int i = 0; i < sz; i++) w[i] = (uint8_t)(i + size);
+            ubuf_block_unmap(b->b, 0);
+        }
+        printf("app take b%ld\n", tab_id(&t_ubuf, b->b));
+        ret(0);
+        return true;
+    }
+    if ((!strcmp(c, "bappend") && nt >= 3) || (!strcmp(c, "binsert") && nt >= 4)) {
+        bool ins = c[1] == 'i';
+        struct abuf *a = abuf_find(tok[1], false), *b = abuf_find(tok[ins ? 3 : 2], false);
+        if (a == NULL || a->b == NULL || b == NULL || b->b == NULL || a == b) { ret(-1); return true; }
+        struct ubuf *ub = b->b;
+        long id = tab_id(&t_ubuf, ub);
+        int err = ins ? ubuf_block_insert(a->b, atoi(tok[2]), ub) : ubuf_block_append(a->b, ub);
+        if (ubase_check(err)) {
+            printf("app give b%ld\n", id);      /* it now belongs to the chain of the other one */
+        } else {
+            printf("app drop b%ld\n", id);      /* refused: still ours, freed here (the script counts it as consumed) */
+            ubuf_free(ub);
+        }
+        b->b = NULL;
+        ret(err);
+        return true;
+    }
+    if (!strcmp(c, "btrunc") && nt >= 3) {
+        struct abuf *a = abuf_find(tok[1], false);
+        if (a == NULL || a->b == NULL) { ret(-1); return true; }
+        ret(ubuf_block_truncate(a->b, atoi(tok[2])));
+        return true;
+    }
+    if (!strcmp(c, "bdelete") && nt >= 4) {
+        struct abuf *a = abuf_find(tok[1], false);
+        if (a == NULL || a->b == NULL) { ret(-1); return true; }
+        ret(ubuf_block_delete(a->b, atoi(tok[2]), atoi(tok[3])));
+        return true;
+    }
+    if (!strcmp(c, "bresize") && nt >= 4) {
+        struct abuf *a = abuf_find(tok[1], false);
+        if (a == NULL || a->b == NULL) { ret(-1); return true; }
+        ret(ubuf_block_resize(a->b, atoi(tok[2]), atoi(tok[3])));
+        return true;
+    }
+    if (!strcmp(c, "bsplit") && nt >= 4) {
+        struct abuf *a = abuf_find(tok[1], false), *b = abuf_find(tok[3], true);
+        if (a == NULL || a->b == NULL || b == NULL || b->b != NULL) { ret(-1); return true; }
+        b->b = ubuf_block_split(a->b, atoi(tok[2]));
+        if (b->b == NULL) { ret(-1); return true; }
+        printf("app take b%ld\n", tab_id(&t_ubuf, b->b));
+        ret(0);
+        return true;
+    }
+    if (!strcmp(c, "bsplice") && nt >= 5) {
+        struct abuf *a = abuf_find(tok[1], false), *b = abuf_find(tok[4], true);
+        if (a == NULL || a->b == NULL || b == NULL || b->b != NULL) { ret(-1); return true; }
+        b->b = ubuf_block_splice(a->b, atoi(tok[2]), atoi(tok[3]));
+        if (b->b == NULL) { ret(-1); return true; }
+        printf("app take b%ld\n", tab_id(&t_ubuf, b->b));
+        ret(0);
+        return true;
+    }
+    if (!strcmp(c, "bread") && nt >= 2) {
+        /* walk the whole chain: every segment is mapped and read */
+        struct abuf *a = abuf_find(tok[1], false);
+        if (a == NULL || a->b == NULL) { ret(-1); return true; }
+        size_t total = 0;
+        unsigned sum = 0, got = 0;
+        if (!ubase_check(ubuf_block_size(a->b, &total))) { ret(-1); return true; }
+        int off = 0;
+        while ((size_t)off < total) {
+            int sz = -1; const uint8_t *r;
+            if (!ubase_check(ubuf_block_read(a->b, off, &sz, &r)) || sz <= 0) break;
+            for (int i = 0; i < sz; i++) sum += r[i];
+            ubuf_block_unmap(a->b, off);
+            off += sz; got += sz;
+        }
+        printf("ret 0 size=%zu read=%u sum=%u\n", total, got, sum);
+        return true;
+    }
     if (!strcmp(c, "bfree") && nt >= 2) {
         struct abuf *a = abuf_find(tok[1], false);
         if (a == NULL || a->b == NULL) { ret(-1); return true; }
